@@ -38,7 +38,7 @@ fn trace_g<R: Residual, const K: usize>(model: &R, t: f64, rho: f64, x: &[f64]) 
     extract(&tr, 2, &outs)
 }
 
-fn api(model: &Arc<ResidualModel>, t: f64, x: &[f64]) -> Value {
+fn api<R: Residual>(model: &Arc<R>, t: f64, x: &[f64]) -> Value {
     let tt = Temperature::from_reduced(t);
     let m = Moles::from_reduced(Array1::from_vec(x.to_vec()));
     let f = |r: Result<f64, String>| match r {
@@ -55,7 +55,7 @@ fn api(model: &Arc<ResidualModel>, t: f64, x: &[f64]) -> Value {
 }
 
 /// (Z - 1)/rho of a real state at density rho (reduced units)
-fn zm1_rho(model: &Arc<ResidualModel>, t: f64, rho: f64, x: &[f64]) -> Option<f64> {
+fn zm1_rho<R: Residual>(model: &Arc<R>, t: f64, rho: f64, x: &[f64]) -> Option<f64> {
     let ntot = 1.0;
     let n = Moles::from_reduced(Array1::from_iter(x.iter().map(|xi| xi * ntot)));
     let st = State::new_nvt(
@@ -70,7 +70,7 @@ fn zm1_rho(model: &Arc<ResidualModel>, t: f64, rho: f64, x: &[f64]) -> Option<f6
 }
 
 /// low-density oracle: Richardson extrapolation of (Z-1)/rho -> B and of its slope -> C
-fn oracle(model: &Arc<ResidualModel>, t: f64, x: &[f64], rho_max: f64) -> Value {
+fn oracle<R: Residual>(model: &Arc<R>, t: f64, x: &[f64], rho_max: f64) -> Value {
     // (Z-1)/rho = B + C rho + D rho^2 + ...
     let h = 2e-3 * rho_max;
     let f = |r: f64| zm1_rho(model, t, r, x);
@@ -126,30 +126,26 @@ Proof. vm_compute. reflexivity. Qed.
 Definition P_order3 a e r Ha He := C01_directional_derivative P_D2 (4 * P_n) [0%nat] a e r Ha He P_D2_scoped.
 "#;
 
-pub fn run(out_dir: &str, tier: &str, seed: u64, only: Option<String>) -> Value {
-    let full = tier == "thorough";
-    let cfgs: Vec<Config> = configs::all(true)
-        .into_iter()
-        .chain(configs::literal())
-        .filter(|c| match &only {
-            Some(o) => &c.name == o,
-            // electrolytes have no virial coefficients (excluded by the property)
-            None => (full || c.core || c.name.starts_with("uv_bh1")) && !c.name.contains("nacl"),
-        })
-        .collect();
-    let k_t = if full { 4 } else { 2 };
-    let lim3 = if full { 900 } else { 450 };
-    let prec = 100;
-    let mut results = Vec::new();
-    for c in &cfgs {
-        let mut rng = Rng(seed ^ trace::fxhash(&c.name) ^ 0xC13);
-        let m = c.model.as_ref();
+struct Par<'a> {
+    out_dir: &'a str,
+    full: bool,
+    seed: u64,
+    k_t: usize,
+    lim3: usize,
+    prec: i64,
+}
+
+/// one configuration: any model implementing `Residual` (equations of state and Helmholtz energy functionals used as bulk models)
+fn one<R: Residual>(name: &str, model: &Arc<R>, ncomp: usize, t_scale: f64, par: &Par, oracle_only: bool) -> Value {
+    let (out_dir, full, seed, k_t, lim3, prec) = (par.out_dir, par.full, par.seed, par.k_t, par.lim3, par.prec);
+        let mut rng = Rng(seed ^ trace::fxhash(&name) ^ 0xC13);
+        let m = model.as_ref();
         // one composition per configuration
-        let mut x: Vec<f64> = (0..c.ncomp).map(|_| rng.range(0.1, 1.0)).collect();
+        let mut x: Vec<f64> = (0..ncomp).map(|_| rng.range(0.1, 1.0)).collect();
         let s: f64 = x.iter().sum();
         x.iter_mut().for_each(|xi| *xi /= s);
         let rho_max = m.compute_max_density(&Array1::from_vec(x.clone()));
-        let ts: Vec<f64> = (0..k_t).map(|_| c.t_scale * rng.range(0.5, 3.0)).collect();
+        let ts: Vec<f64> = (0..k_t).map(|_| t_scale * rng.range(0.5, 3.0)).collect();
         // the path the virial functions take: rho = 0 exactly
         let p0 = trace_g::<_, 2>(m, ts[0], 0.0, &x);
         let p0b = trace_g::<_, 2>(m, ts[0] * 1.37, 0.0, &x);
@@ -172,7 +168,7 @@ pub fn run(out_dir: &str, tier: &str, seed: u64, only: Option<String>) -> Value 
         let ninstr = prog.instrs.len();
         let do3 = ninstr <= lim3;
         // programs above this size are not enclosed in this tier (oracle only)
-        let enclosed = ninstr <= if full { 3000 } else { 1500 };
+        let enclosed = !oracle_only && ninstr <= if full { 3000 } else { 1500 };
         let mut v = emit::header(&["ProgSem", "ProgSemBig", "AD", "BoxBig", "VirialBox"]);
         v.push_str("From FeosProps Require Import C01 C13.\n");
         v.push_str(&prog.emit_coq("P"));
@@ -211,16 +207,16 @@ pub fn run(out_dir: &str, tier: &str, seed: u64, only: Option<String>) -> Value 
             ));
         }
         if enclosed {
-            std::fs::write(format!("{out_dir}/{}.v", c.name), v).unwrap();
+            std::fs::write(format!("{out_dir}/{}.v", name), v).unwrap();
         }
-        let apis: Vec<Value> = ts.iter().map(|t| api(&c.model, *t, &x)).collect();
-        let oracles: Vec<Value> = ts.iter().map(|t| oracle(&c.model, *t, &x, rho_max)).collect();
+        let apis: Vec<Value> = ts.iter().map(|t| api(model, *t, &x)).collect();
+        let oracles: Vec<Value> = ts.iter().map(|t| oracle(model, *t, &x, rho_max)).collect();
         // temperature derivative oracle: central difference of the reported coefficient
         let dts: Vec<Value> = ts
             .iter()
             .map(|t| {
                 let h = 1e-4 * t;
-                let (a, b) = (api(&c.model, t + h, &x), api(&c.model, t - h, &x));
+                let (a, b) = (api(model, t + h, &x), api(model, t - h, &x));
                 let d = |k: &str| match (a[k].as_f64(), b[k].as_f64()) {
                     (Some(p), Some(q)) => json!((p - q) / (2.0 * h)),
                     _ => Value::Null,
@@ -228,17 +224,64 @@ pub fn run(out_dir: &str, tier: &str, seed: u64, only: Option<String>) -> Value 
                 json!({"dB_dT_fd": d("B"), "dC_dT_fd": d("C")})
             })
             .collect();
-        results.push(json!({
-            "name": c.name, "ncomp": c.ncomp, "x": x, "temperatures": ts, "rho_max": rho_max,
+        json!({
+            "name": name, "ncomp": ncomp, "x": x, "temperatures": ts, "rho_max": rho_max,
             "ninstr": ninstr, "outs": prog.outs, "order3": do3, "enclosed": enclosed,
             "leaks_rho0": c0.leaks.len(), "shape_stable_rho0": c0.same_shape,
             "leaks_fd": cf.leaks.len(), "shape_stable_fd": cf.same_shape,
             "same_shape_rho0_vs_fd": same_as_fd.same_shape,
             "non_finite_outputs_at_rho0": nanvals, "unsupported": prog.unsupported,
             "api": apis, "oracle": oracles, "fd_T": dts,
-        }));
+        })
+}
+
+pub fn run(out_dir: &str, tier: &str, seed: u64, only: Option<String>) -> Value {
+    let full = tier == "thorough";
+    let cfgs: Vec<Config> = configs::all(true)
+        .into_iter()
+        .chain(configs::literal())
+        .filter(|c| match &only {
+            Some(o) => &c.name == o,
+            // electrolytes have no virial coefficients (excluded by the property)
+            None => (full || c.core || c.name.starts_with("uv_bh1")) && !c.name.contains("nacl"),
+        })
+        .collect();
+    let par = Par { out_dir, full, seed, k_t: if full { 4 } else { 2 }, lim3: if full { 900 } else { 450 }, prec: 100 };
+    let mut results = Vec::new();
+    for c in &cfgs {
+        results.push(one::<ResidualModel>(&c.name, &c.model, c.ncomp, c.t_scale, &par, false));
     }
-    json!({"property": "C13", "tier": tier, "seed": seed, "prec": prec, "configs": results})
+    // Helmholtz energy functionals used as bulk models (they implement `Residual`, so the virial functions exist for them)
+    {
+        use feos::hard_sphere::FMTVersion;
+        use feos::pcsaft::PcSaftFunctional;
+        let sel = |n: &str| only.as_ref().map_or(true, |o| o == n);
+        use feos::pcsaft::{PcSaftParameters, PcSaftRecord};
+        use feos_core::parameter::Parameter;
+        // the functionals regularise divisions by weighted densities, so the traced rho = 0 program is not a model of them:
+        // public virial functions vs the low-density limit of real states only (oracle_only)
+        let assoc = PcSaftRecord::new(1.0, 3.0, 250.0, None, None, Some(0.03), Some(2500.0), Some(1.0), Some(1.0), None, None, None, None);
+        let inert = PcSaftRecord::new(1.0, 3.7, 150.0, None, None, None, None, None, None, None, None, None, None);
+        let lit = |r: Vec<PcSaftRecord>| Arc::new(PcSaftParameters::from_model_records(r).unwrap());
+        let mut add = |name: &str, p: Arc<PcSaftParameters>, ver: FMTVersion, t_scale: f64| {
+            if sel(name) {
+                let n = p.m.len();
+                let f = Arc::new(PcSaftFunctional::new_full(p, ver));
+                results.push(one(name, &f, n, t_scale, &par, true));
+            }
+        };
+        // monomers (m = 1): with and without association, pure-component and mixture code paths
+        add("fn_pcsaft_wb_methane", Arc::new(configs::pcsaft_params(&["methane"], "gross2001.json", None)), FMTVersion::WhiteBear, 190.0);
+        add("fn_pcsaft_kr_assoc_m1", lit(vec![assoc.clone()]), FMTVersion::KierlikRosinberg, 400.0);
+        add("fn_pcsaft_wb_assoc_inert_m1", lit(vec![assoc, inert]), FMTVersion::WhiteBear, 350.0);
+        // chain molecules (m != 1): recorded finding
+        add("fn_pcsaft_kr_propane_butane", Arc::new(configs::pcsaft_params(&["propane", "butane"], "gross2001.json", None)), FMTVersion::KierlikRosinberg, 400.0);
+    }
+    json!({"property": "C13", "tier": tier, "seed": seed, "prec": prec_of(&par), "configs": results})
+}
+
+fn prec_of(p: &Par) -> i64 {
+    p.prec
 }
 
 fn main() {
